@@ -209,6 +209,20 @@ def Config.wellTyped (cfg : Config) : Bool :=
   (match cfg.mutation with | some q => hasKind .object q | none => true) &&
   (match cfg.subscription with | some q => hasKind .object q | none => true)
 
+def distinctNames : List String → Bool
+  | [] => true
+  | x :: xs => !xs.contains x && distinctNames xs
+
+/-- the configuration is a rendering of Go maps as lists: the keys of every map (fields of a type, arguments of a
+field or directive, input fields, enum values) are pairwise distinct -/
+def Config.mapsOk (cfg : Config) : Bool :=
+  cfg.types.all (fun t =>
+    distinctNames (t.fields.map (·.name)) && t.fields.all (fun f => distinctNames (f.args.map (·.name))) &&
+    distinctNames (t.inputFields.map (·.name)) && distinctNames (t.values.map (·.1))) &&
+  cfg.directives.all (fun d => match d with
+    | some d => distinctNames (d.args.map (·.name))
+    | none => true)
+
 /-! ## Constructors (definition.go) -/
 
 /-- `Name()` of a named type object: the constructors assign the name only after it was validated -/
@@ -305,6 +319,8 @@ structure BType where
   inputFields : List BArg := []    -- input object: `Fields()`
   interfaces : List Nat := []      -- object: `Interfaces()`
   members : List Nat := []         -- union: `Types()`
+  values : List String := []       -- enum: names of `Values()` (sorted)
+  resolver : Bool := false         -- object: `IsTypeOf != nil`; interface / union: `ResolveType != nil`
 deriving Repr, Inhabited, DecidableEq
 
 /-- `defineFieldMap`, arguments of one field (already sorted by name) -/
@@ -420,7 +436,11 @@ def builtType (cfg : Config) (i : Nat) : BType :=
     fields := if k == .object || k == .interface then orNil (fieldsOf cfg i) else [],
     inputFields := if k == .inputObject then orNil (inputFieldsOf cfg i) else [],
     interfaces := if k == .object then orNil (interfacesOf cfg i) else [],
-    members := if k == .union then orNil (membersOf cfg i) else [] }
+    members := if k == .union then orNil (membersOf cfg i) else [],
+    values := if k == .enum && (ctorErr cfg i).isNone then
+        (sortBy (fun a b => decide (a.1 < b.1)) (cfg.get i).values).map (·.1) else [],
+    resolver := if k == .object then hasIsTypeOf cfg i
+      else if k == .interface || k == .union then validName (cfg.get i).name && (cfg.get i).resolver else false }
 
 /-! ## typeMapReducer (schema.go) -/
 
@@ -600,13 +620,18 @@ def dirErr (cfg : Config) : Option DirCfg → Option Err
   | none => some .nilDirective
   | some d => dirCtorErr cfg d
 
-/-- argument types of `schema.Directives()` in the order `NewSchema` walks them (the specified directives @include,
-@skip, @deprecated when none are configured) -/
-def dirArgTypes (cfg : Config) : List TRef :=
-  if cfg.directives.isEmpty then [.nonNull (.ref idBoolean), .nonNull (.ref idBoolean), .ref idString]
-  else cfg.directives.flatMap (fun d => match d with
-    | none => []
-    | some d => (sortBy (fun a b => decide (a.name < b.name)) d.args).map (fun a => a.type.build))
+/-- `schema.Directives()` as built: the specified directives @include, @skip, @deprecated when none are configured,
+else the configured ones with their arguments in sorted name order -/
+def dirDefs (cfg : Config) : List (String × List BArg) :=
+  if cfg.directives.isEmpty then
+    [("include", [⟨"if", .nonNull (.ref idBoolean)⟩]), ("skip", [⟨"if", .nonNull (.ref idBoolean)⟩]),
+     ("deprecated", [⟨"reason", .ref idString⟩])]
+  else cfg.directives.filterMap (fun d => match d with
+    | none => none
+    | some d => some (d.name, (sortBy (fun a b => decide (a.name < b.name)) d.args).map (fun a => ⟨a.name, a.type.build⟩)))
+
+/-- argument types of `schema.Directives()` in the order `NewSchema` walks them -/
+def dirArgTypes (cfg : Config) : List TRef := (dirDefs cfg).flatMap (fun d => d.2.map (·.type))
 
 /-- the loop over `initialTypes` -/
 def reduceRoots (cfg : Config) : TM → List TRef → Except Err TM
@@ -701,7 +726,7 @@ structure BuiltSchema where
   subscription : Option Nat
   possibleTypes : List (Nat × List Nat)     -- `PossibleTypes(a)` for every abstract type of the type map
   isPossible : List (Nat × Nat)             -- pairs (abstract a, object o) of the type map with `IsPossibleType(a, o)`
-  directiveArgs : List TRef := []           -- argument types of `Directives()`
+  directives : List (String × List BArg) := []   -- `Directives()`: name and arguments
 deriving Repr, Inhabited
 
 def TM.abstracts (cfg : Config) (tm : TM) : List Nat := tm.filter (fun i => (kindOf cfg i).isAbstract)
@@ -723,13 +748,16 @@ def dump (cfg : Config) (s : St) : BuiltSchema :=
     possibleTypes := (s.tm.abstracts cfg).map (fun a => (a, possibleTypesOf cfg s.tm a)),
     isPossible := (s.tm.abstracts cfg).flatMap (fun a =>
       ((s.tm.objects cfg).filter (isPossibleFinal cfg s.tm a)).map (fun o => (a, o))),
-    directiveArgs := dirArgTypes cfg }
+    directives := dirDefs cfg }
 
 /-! ## S: consistency of a dumped schema -/
 
 namespace BuiltSchema
 
 def get (s : BuiltSchema) (i : Nat) : BType := (s.table[i]?).getD { kind := .scalar, name := "" }
+
+/-- argument types of the directives -/
+def directiveArgs (s : BuiltSchema) : List TRef := s.directives.flatMap (fun d => d.2.map (·.type))
 
 def lookup (s : BuiltSchema) (n : String) : Option Nat := (s.typeMap.find? (fun p => p.1 == n)).map (·.2)
 
